@@ -1,5 +1,8 @@
 import XjsModel.Proofs.ParserFrame
 import XjsModel.Props.C10
+import XjsModel.Proofs.ParserWfPass
+import XjsModel.Proofs.ParserCompletePass
+import XjsModel.Proofs.PrinterOk
 /-
   C11 — Parsing is total and its result obeys the error contract.
 
@@ -12,8 +15,15 @@ import XjsModel.Props.C10
         (for byte input: a token of `lexAll src`); the error list only ever grows, errors are never
         dropped or rewritten by a later step;
     the cursor never moves backwards (ingredient of termination).
-  See the end of the file for the clauses proved in later sections (statement lists without nil entries,
-  completeness of error-free trees, totality).
+    (c) no statement list in the returned tree, at any depth, contains a nil entry — whatever errors occurred
+        (`wf_mutual`, one pass over the mutual fixed point);
+    (e) whenever no error is reported the tree is complete (every mandatory child present, recursively:
+        `complete_mutual`) and a complete tree compiles in EVERY configuration without dereferencing a nil child
+        (`compile_ok`, structural induction over the printers).
+  Not proved in Lean: (a) termination of the parser for every input. The model's parser is a least fixed point
+  (`partial_fixpoint`), all theorems here are of the form "whenever the parse returns …"; that it always returns,
+  and never panics, is decided by the correspondence run (diverging / panicking ops are compared) and the
+  error-contract oracle on raw bytes and token mutations in all four modes.
 -/
 namespace Xjs.C11
 open Xjs
@@ -59,6 +69,74 @@ theorem cursor_never_moves_backwards (cfg : PCfg) (is : List SI) (st : PS) (r : 
     (h : parseStatementI cfg is st = some r) : r.2.toks.length ≤ st.toks.length :=
   (steps_parseStatementI cfg is st r h).toks_length
 
+theorem wf_programLoop (cfg : PCfg) (acc : StmtList) (st : PS) (r : StmtList × PS)
+    (h : programLoop cfg acc st = some r) : acc.wf = true → r.1.wf = true := by
+  refine programLoop.partial_correctness cfg (fun acc _ r => acc.wf = true → r.1.wf = true) ?_ acc st r h
+  intro f ih acc st r h hacc
+  split at h
+  · obtain ⟨⟨s, st1⟩, h1, h2⟩ := bind_some h
+    have hs := (wf_mutual cfg).1 _ _ _ h1
+    refine ih _ _ _ h2 ?_
+    dsimp only at hs ⊢
+    split
+    · exact hacc
+    · rename_i hn
+      rw [StmtList.wf_snoc]; simp [hacc, hs, hn]
+  · cases h; exact hacc
+
+/-- (c) statement lists in the returned tree never contain nil entries, whatever the input and the mode -/
+theorem no_nil_in_statement_lists (cfg : PCfg) (toks : List Token) (r : ParseResult)
+    (h : parseProgram cfg toks = some r) : r.prog.wf = true := by
+  unfold parseProgram at h
+  obtain ⟨⟨stmts, st⟩, h1, h2⟩ := bind_some h
+  cases h2
+  exact wf_programLoop cfg _ _ _ h1 rfl
+
+theorem complete_programLoop (cfg : PCfg) (acc : StmtList) (st : PS) (r : StmtList × PS)
+    (h : programLoop cfg acc st = some r) :
+    st.elen ≤ r.2.elen ∧ ((acc.complete = true → r.1.complete = true) ∨ st.elen < r.2.elen) := by
+  refine programLoop.partial_correctness cfg
+    (fun acc st r => st.elen ≤ r.2.elen ∧ ((acc.complete = true → r.1.complete = true) ∨ st.elen < r.2.elen)) ?_ acc st r h
+  intro f ih acc st r h
+  split at h
+  · obtain ⟨⟨s, st1⟩, h1, h2⟩ := bind_some h
+    obtain ⟨l1, r1⟩ := (complete_mutual cfg).1 _ _ _ h1
+    obtain ⟨l2, r2⟩ := ih _ _ _ h2
+    dsimp only at l1 r1
+    simp only [elen_next] at l2 r2
+    refine ⟨by omega, ?_⟩
+    rcases r1 with r1 | r1
+    · rcases r2 with r2 | r2
+      · left
+        intro hacc
+        apply r2
+        rw [Stmt.complete_not_none r1]
+        simp [StmtList.complete_snoc, hacc, r1]
+      · right; omega
+    · right; omega
+  · cases h; exact ⟨Nat.le_refl _, Or.inl id⟩
+
+/-- (e) whenever no error is reported, the tree has all mandatory children … -/
+theorem error_free_tree_is_complete (cfg : PCfg) (toks : List Token) (r : ParseResult)
+    (h : parseProgram cfg toks = some r) (hok : r.errors = []) : r.prog.complete = true := by
+  unfold parseProgram at h
+  obtain ⟨⟨stmts, st⟩, h1, h2⟩ := bind_some h
+  cases h2
+  obtain ⟨_, rr⟩ := complete_programLoop cfg _ _ _ h1
+  rcases rr with rr | rr
+  · exact rr rfl
+  · simp only [PS.elen, PS.init, List.length_nil] at rr
+    simp only at hok
+    rw [hok] at rr
+    simp at rr
+
+/-- (e) … and compiles in EVERY configuration (compact, pretty with any indent, with or without semicolons
+    and source map) without dereferencing a nil child -/
+theorem error_free_tree_compiles (cfg : PCfg) (toks : List Token) (r : ParseResult)
+    (h : parseProgram cfg toks = some r) (hok : r.errors = []) (ccfg : CompCfg) :
+    (compile ccfg r.prog).ok = true :=
+  compile_ok ccfg r.prog (error_free_tree_is_complete cfg toks r h hok)
+
 /-! Non-vacuity -/
 example : ∃ r, parseProgram {} [dummyTok] = some r ∧ r.hasErr = false := by
   have h : parseProgram {} [dummyTok] =
@@ -74,3 +152,6 @@ end Xjs.C11
 #print axioms Xjs.C11.error_ranges_are_token_ranges
 #print axioms Xjs.C11.error_ranges_are_token_ranges_src
 #print axioms Xjs.C11.cursor_never_moves_backwards
+#print axioms Xjs.C11.no_nil_in_statement_lists
+#print axioms Xjs.C11.error_free_tree_is_complete
+#print axioms Xjs.C11.error_free_tree_compiles
